@@ -669,6 +669,9 @@ fn case_strategy() -> BoxedStrategy<Case> {
 pub struct C10;
 
 impl Check for C10 {
+    fn stall_secs(_tier: Tier) -> Option<u64> {
+        None
+    }
     type Case = Case;
     const ID: &'static str = "C10";
     fn rule() -> String {
